@@ -413,3 +413,47 @@ def strategy_selection(c):
     out = c.call(hi.fit, _image(c), model, ['r'], rec)
     c.ensures("model-used-as-it-is", rec.got[0] is model)
     c.ensures("ignored-parameter-list-is-announced", any("Ignoring parameters" in str(e) for e in c.events()))
+
+
+# --------------------------------------------------------------------------------- best-fit hologram of a subset fit
+@contract("C13", "subset_result_hologram", [RS + "FitResult.forward", RS + "FitResult.hologram", RS + "FitResult.guess_hologram",
+                                            "holopy.core.metadata:make_subset_data"],
+          bounded="3x2 image; 3 of 6 pixels (two selections) or all 6; image origin at (0, 0) or at (6, 5)", timeout_ms=60000)
+def subset_result_hologram(c):
+    """the result of a fit on a random pixel subset reports its best-fit (and guess) hologram on the ORIGINAL image's grid: the same
+    coordinates as the full image - also for a region of interest whose coordinates do not start at 0 - and, pixel by pixel, the
+    forward model at the reported parameters on those coordinates"""
+    from pyvc import shim
+    from holopy.scattering.interface import calc_holo
+    from holopy.core.metadata import make_subset_data
+    from holopy.inference.result import UncertainValue
+    ox, oy = c.choice("image_origin", [(0.0, 0.0), (6.0, 5.0)])
+    sel = c.choice("selected_pixels", [[4, 0, 3], [1, 5, 2], [0, 1, 2, 3, 4, 5]])
+    vals = np.empty((3, 2), dtype=object if c.symbolic else float)
+    for i in range(3):
+        for j in range(2):
+            vals[i, j] = c.real("d%d%d" % (i, j), sample=(0.5, 1.5))
+    image = data_grid(vals, spacing=0.5, medium_index=1.33, illum_wavelen=0.66, illum_polarization=(1, 0))
+    image = image.assign_coords(x=image.x.values + ox, y=image.y.values + oy)
+    shim._Random.scripted_choice = sel
+    try:
+        subset = c.call(make_subset_data, image, pixels=len(sel), seed=3)
+    finally:
+        shim._Random.scripted_choice = None
+    sph = Sphere(n=Uniform(1.2, 2.0), r=Uniform(0.1, 1.5), center=[Uniform(ox - 2, ox + 3), oy + 0.4, Uniform(2.0, 9.0)])
+    model = ExactModel(sph, calc_func=calc_holo, theory=AbstractPointTheory(), noise_sd=0.1)
+    names = list(model._parameter_names)
+    pars = [c.real("v_n", sample=(1.3, 1.9)), c.real("v_r", sample=(0.2, 1.2)), c.real("v_x", sample=(ox - 1, ox + 2)), c.real("v_z", sample=(3, 8))]
+    c.requires(c.and_(pars[1] > 0, pars[0] > 0))
+    res = FitResult(subset, model, LeastSquaresScipyStrategy(npixels=len(sel)), 0.0,
+                    {'intervals': [UncertainValue(v, 0.0, name=nm) for v, nm in zip(pars, names)]})
+    got = c.call(lambda: res.hologram)
+    want = c.call(model.forward, dict(zip(names, pars)), image)
+    c.ensures("on-the-original-images-grid", list(got.x.values) == list(image.x.values) and list(got.y.values) == list(image.y.values))
+    c.ensures("forward-model-at-the-reported-parameters-on-that-grid",
+              c.eq(got.transpose('x', 'y', 'z').values, want.transpose('x', 'y', 'z').values))
+    guess = c.call(lambda: res.guess_hologram)
+    c.ensures("guess-hologram-on-the-original-images-grid", list(guess.x.values) == list(image.x.values) and list(guess.y.values) == list(image.y.values))
+    c.ensures("guess-hologram-is-the-forward-model-at-the-guess",
+              c.eq(guess.transpose('x', 'y', 'z').values, c.call(model.forward, model.initial_guess, image).transpose('x', 'y', 'z').values))
+    c.canary("hologram-independent-of-parameters", c.eq(got.transpose('x', 'y', 'z').values, guess.transpose('x', 'y', 'z').values))
